@@ -11,6 +11,7 @@ equality; on difference the Coq monitor decides whether it is a cost tie) and
 replayed by the monitor (labels unique per frame, no label shared by two
 trajectories, optimal).
 """
+import os, json
 import numpy as np, pandas as pd, json
 from fractions import Fraction
 import common, linkgen
@@ -215,9 +216,35 @@ def run(chk):
         return _run(chk)
 
 
+def audit_shared_state(chk):
+    """route T for the hypothesis of C04_isolation: the linking code keeps no state that two jobs can both reach,
+    beyond the reviewed inventory vp/shared_state_expected.json"""
+    import importlib.util
+    spec = importlib.util.spec_from_file_location('audit_shared_state', os.path.join(common.VERIF, 'tools', 'audit_shared_state.py'))
+    mod = importlib.util.module_from_spec(spec); spec.loader.exec_module(mod)
+    try:
+        inv = mod.audit(common.REPO)
+    except SyntaxError as e:
+        chk.proof_broken('shared-state inventory: source does not parse', str(e)); return
+    exp = json.load(open(os.path.join(common.VERIF, 'vp', 'shared_state_expected.json')))['entries']
+    known = {(e['kind'], e['file'], e['name']): set(e['where']) for e in exp}
+    new = []
+    for it in inv:
+        k = (it['kind'], it['file'], it['name'])
+        extra = set(it['where']) - known.get(k, set()) if k in known else set(it['where'])
+        if extra:
+            new.append('%s %s %s (%s)' % (it['kind'], it['file'], it['name'], '; '.join(sorted(extra))))
+    chk.tally('shared-state inventory: %d reviewed entries, %d new' % (len(inv) - len(new), len(new)))
+    chk.coverage['shared_state_inventory'] = ['%s %s %s' % (it['kind'], it['file'], it['name']) for it in inv]
+    if new:
+        chk.proof_broken('C04_isolation hypothesis (jobs share no state): process-wide state not in the reviewed inventory: ' + ' | '.join(new),
+                         json.dumps(dict(new=new, inventory=inv), indent=1))
+
+
 def _run(chk):
     common.quiet_trackpy()
     chk.coq()
+    audit_shared_state(chk)
     rng = chk.rng
     n = 160 if chk.tier == 'quick' else 2500
     cases = corpus()
